@@ -21,6 +21,7 @@ func init() {
 		Run: func(c *Ctx) {
 			// history clause first, so that each worker process meets it in its initial state
 			stdHistories(c, func(n string) bool { _, ok := refsC13[n]; return ok }, refOracle(refsC13))
+			c13SetRoutes(c)
 			cap := 60000
 			deepDict = c.Thorough
 			if c.Thorough {
